@@ -498,21 +498,17 @@ func init() {
 	reg("(*sync/atomic.Value).Load", func(m *Machine, fr *frame, a []value) value {
 		p := a[0].(*value)
 		m.event("aload", p, nil)
-		if v, ok := m.atomicVals[p]; ok {
-			return v
-		}
-		return iface{}
+		// atomic.Value is struct{ v any }: the stored interface lives in field 0
+		// so that overwriting the struct (x = atomic.Value{}) resets it.
+		return (*p).(structure)[0]
 	})
 	reg("(*sync/atomic.Value).Store", func(m *Machine, fr *frame, a []value) value {
 		p := a[0].(*value)
 		m.event("astore", p, a[1])
-		if m.atomicVals == nil {
-			m.atomicVals = map[*value]value{}
-		}
 		if a[1].(iface).t == nil {
 			panic(targetPanic{v: "sync/atomic: store of nil value into Value"})
 		}
-		m.atomicVals[p] = a[1]
+		(*p).(structure)[0] = a[1]
 		return nil
 	})
 
